@@ -671,6 +671,51 @@ def run_sparse_index(case):
                 pass
         if viol:
             break
+    if mode == 'set' and not viol:
+        # one-argument (linear, column-major) index sets with a number, a dense and a sparse value: every list / integer
+        # matrix of two distinct positions from -m*n .. m*n-1, and slices
+        N = m * n
+        lin = [[a, b] for a in range(-N, N) for b in range(-N, N) if (a % N) < (b % N)]
+        lin = lin[::1 if N <= 4 else 3]
+        idx = [slice(None, None, 2), slice(1, None, None), slice(None, None, -1)] + lin + [matrix(l) for l in lin[::2]]
+        for ix in idx:
+            k = len(range(*ix.indices(N))) if isinstance(ix, slice) else len(ix)
+            if k == 0:
+                continue
+            for kind in ('number', 'dense', 'sparse'):
+                S = mk(); D = matrix(S)
+                vd = matrix([7.0 + t for t in range(k)], (k, 1))
+                vs = sparse(vd)
+                if k > 1:
+                    vs[0] = 0.0
+                    vd2 = matrix(vs)
+                else:
+                    vd2 = vd
+                nev += 1
+                try:
+                    if kind == 'number':
+                        S[ix] = 2.5; D[ix] = 2.5
+                    elif kind == 'dense':
+                        S[ix] = vd; D[ix] = vd
+                    else:
+                        S[ix] = vs; D[ix] = vd2
+                    nt += 1
+                    ci = list(S.CCS[0]); ri = list(S.CCS[1])
+                    bad = ci[0] != 0 or any(a > b for a, b in zip(ci, ci[1:])) or ci[-1] != len(ri) or any(t < 0 or t >= m for t in ri) or \
+                        any(ri[q] >= ri[q + 1] for j in range(n) for q in range(ci[j], ci[j + 1] - 1))
+                    if bad:
+                        viol.append({'key': 'C19:sparse-index:set1:%s:operand-structure-invalid' % kind,
+                                     'msg': 'after S[%r] = <%s> on a %dx%d sparse matrix: colptr %r rowind %r' % (ix if not hasattr(ix, 'size') else list(ix), kind, m, n, ci, ri)})
+                        break
+                    g, w = list(matrix(S)), list(D)
+                    if g != w:
+                        viol.append({'key': 'C19:sparse-index:set1:%s:differs-from-dense' % kind,
+                                     'msg': 'S[%r] = <%s> on a %dx%d sparse matrix gives %r, dense %r' % (ix if not hasattr(ix, 'size') else list(ix), kind, m, n, g, w)})
+                        break
+                except (IndexError, TypeError, ValueError, NotImplementedError):
+                    pass
+            if viol:
+                break
     return {'n': nev, 'nontrivial': nt, 'viol': viol, 'outcomes': {'sparse-index-' + mode: nev}}
 
 
